@@ -422,6 +422,13 @@ impl Scenario for Cancel {
             Kind::MultiOgreFullSync,
             Kind::MultiMmapLog,
         ]);
+        // a run on the log channel creates, maps and removes a file (10-50 x the cost of any other run, and very dependent on
+        // the machine): two thirds of them are drawn again, so that they do not dominate the batch
+        let kind = if kind == Kind::MultiMmapLog && !rng.chance(1, 3) {
+            *rng.pick(&[Kind::UniMoveAtomic, Kind::UniMoveFullSync, Kind::UniMoveCrossbeam, Kind::UniZcAtomic, Kind::UniZcFullSync, Kind::MultiArcAtomic, Kind::MultiArcFullSync, Kind::MultiArcCrossbeam, Kind::MultiOgreAtomic, Kind::MultiOgreFullSync])
+        } else {
+            kind
+        };
         let buffer = *rng.pick(&chan::BUFFERS);
         let max_streams = *rng.pick(&chan::STREAMS);
         let streams = 1 + rng.below(max_streams.min(3) as u64) as usize;
